@@ -3,6 +3,7 @@ import M3d.Model.CodecIO
 import M3d.Model.CodecSpec
 import M3d.Model.CodecRound
 import M3d.Model.CodecFace
+import M3d.Model.CodecStream
 /-! Line-protocol handler for C15 (codec round trips). Core-only. -/
 namespace M3d.Drv.C15
 open M3d M3d.Codec M3d.Codec.IO
@@ -53,6 +54,46 @@ def handleStlRound (ws : List String) : Option String := do
       | .ok rs => showRecs32 rs
       | .error _ => "error"
     some (showHex bytes ++ " " ++ dec)
+
+/-! ### STL from a reader that delivers the file in pieces (kind `stlc`) -/
+
+/-- `<reps>x<size>` -/
+def pRun : P (List Nat) := do
+  let t ← tok
+  match t.splitOn "x" with
+  | [a, b] => match a.toNat?, b.toNat? with
+    | some r, some k => pure (List.replicate r k)
+    | _, _ => failure
+  | _ => failure
+
+def showDecoded (r : Except Err (List Rec)) : String :=
+  match r with
+  | .ok rs => "D " ++ showRecs32 rs ++ " M " ++ showRecs64 (rs.map fun r => (r.drop 3).map widen)
+  | .error _ => "D error M error"
+
+/-- `stlc b <eager> <nruns> {<reps>x<size>} <n> {nx ny nz + 9 coords as float64 bits}` and
+`stlc a <eager> <nruns> {<reps>x<size>} <n> {12 float32 bits} ft…`: the file (binary as `EncodeSTL`
+writes it / ASCII to the specification) is cut into deliveries of the given sizes and read with the
+reader-level model `Stream.stlDecodeSrc` (`io.ReadFull`, `io.MultiReader`, `bufio.Reader` on partial
+deliveries).  By `M3d.C15.stl_reader_split_any_sizes` the answer is `stlDecode` of the file, by
+`stl_bin_roundtrip_any_delivery` / `stl_ascii_spec_any_delivery` the records written.  `D` = the records
+`fileformats.STLReader` returns, `M` = the triangles `model3d.ReadSTL` returns. -/
+def handleStlChunked (ws : List String) : Option String := do
+  match ws with
+  | "b" :: rest =>
+    let (eager, ks, ts) ← run (do
+      let e ← pNat; let ks ← pCounted pRun; let ts ← pCounted (pMany pHex64 12); pure (e, ks.flatten, ts)) rest
+    let bytes := stlEncode (ts.map fun t => t.map round32)
+    let src : Stream.Src := ⟨Stream.splitSizes ks bytes, eager = 1⟩
+    some (showHex bytes ++ " " ++ showDecoded (Stream.stlDecodeSrc noParse32 src))
+  | "a" :: rest =>
+    let (eager, ks, ts, tb) ← run (do
+      let e ← pNat; let ks ← pCounted pRun; let ts ← pCounted (pMany pHex32 12); let tb ← pTables
+      pure (e, ks.flatten, ts, tb)) rest
+    let bytes := stlAsciiSpec tb.floatText.fmt32 ts
+    let src : Stream.Src := ⟨Stream.splitSizes ks bytes, eager = 1⟩
+    some (showHex bytes ++ " " ++ showDecoded (Stream.stlDecodeSrc tb.pf32 src))
+  | _ => none
 
 /-- `plys <header> <nrows> {row} ft…` : PLYWriter bytes, then NewPLYReader + Read until EOF. -/
 def handlePlyStream (ws : List String) : Option String := do
@@ -298,11 +339,12 @@ def handleObjX (ws : List String) : Option String := do
   some ("V " ++ toString coords.length ++ " G " ++ toString groups.length ++
     String.join (groups.map fun g => " m" ++ g.1 ++ " " ++ toString g.2.length ++ String.join g.2))
 
-def handleAll (ws : List String) : Option String :=
+def dispatch (ws : List String) : Option String :=
   match ws with
   | "stl" :: rest => handleStl rest
   | "stla" :: rest => handleStlAscii rest
   | "stlr" :: rest => handleStlRound rest
+  | "stlc" :: rest => handleStlChunked rest
   | "plys" :: rest => handlePlyStream rest
   | "plym" :: rest => handlePlyMesh rest
   | "csv" :: rest => handleCsv rest
@@ -312,5 +354,13 @@ def handleAll (ws : List String) : Option String :=
   | "3mf" :: rest => handle3mf rest
   | "objx" :: rest => handleObjX rest
   | _ => none
+
+/-- An optional second token `@…` says how the bytes were delivered to the real reader (`@w`: at once
+from a `bytes.Reader`; `@e<0|1>;<reps>x<size>;…`: in pieces).  It is part of the failing input a replay
+names, but the answer the property demands does not depend on it, so it is skipped here. -/
+def handleAll (ws : List String) : Option String :=
+  match ws with
+  | kind :: t :: rest => if t.startsWith "@" then dispatch (kind :: rest) else dispatch ws
+  | _ => dispatch ws
 
 end M3d.Drv.C15
